@@ -10,10 +10,12 @@ def run(ctx):
     # (1) systems: counts, info tables, signatures, clean compilation, Python loads
     sysscen = os.path.join(ctx.work, "systems.scen.ndjson")
     open(sysscen, "w").close()
-    for cfg in (["Gen_n1", "Gen_n2", "Gen_n1z", "Gen_n2z"] if ctx.quick else ["Gen_n1", "Gen_n2", "Gen_n1z", "Gen_n2z", "Gen_n3run", "Gen_n3runz"]):
+    for cfg in (["Gen_n1", "Gen_n2", "Gen_n1z", "Gen_n1u", "Gen_n2u"] if ctx.quick else ["Gen_n1", "Gen_n2", "Gen_n1z", "Gen_n2z", "Gen_n1u", "Gen_n2u", "Gen_n3run", "Gen_n3runz"]):
         part = ctx.gen("System", "Gen_System.tla", cfg + ".cfg", cfg, workers=8, timeout=3000, heap="12g")
         with open(sysscen, "a") as out:
-            for line in open(part):
+            for i, line in enumerate(open(part)):
+                if ctx.quick and cfg == "Gen_n2u" and i % 2:
+                    continue
                 out.write(line)       # faulty systems included: both code strings must be empty for non-valid models
     ctx.sample(sysscen, 2)
     strace = ctx.execute("system", sysscen, timeout_s=120)
